@@ -1,4 +1,4 @@
-/* GENERATED from specs/C18/sbo.c by spec.py -- do not edit */
+/* GENERATED from specs/C18/sbo_core.c + sbo_units.c by spec.py -- do not edit */
 /* C18 unit group 1 -- movable_sbo_storage<Base,..> / copyable_sbo_storage<Base,..>: I-contracts (representation
  * invariant WF + ledger of live contained objects + full frame) for every public operation.
  * All function bodies below come from the lifter; the helpers (empty/get/release/reset_vtable/move_assign/copy_assign)
